@@ -563,7 +563,7 @@ def c12tOp (args : List String) : String :=
     | _ => pure ()
     match x with
     | .struct fs =>
-      let env : Env := { partials := [], filters := baseFilters }
+      let env : Env := Env.ofList [] baseFilters
       let r1 := renderTop defaultFuel env t (tdViewF fs)
       let r2 : Res Str := (serializeObject x.toSD).bind fun o => renderTop defaultFuel env t o
       let spec : Option String :=
